@@ -1,11 +1,106 @@
 //go:build verif
 
 // Contracts for the govc verifier (/verif). Comment-only; compiled only with -tags verif.
+// ieOK (the parser's data invariant), ieDet (lazily determined fields hold their specified values) and
+// ieTitleSpec .. ieDateSpec (what the IE Reading View tags of the document provide) are defined in
+// /verif/specs/markup.ghost.
 
 package iereader
 
 //@ func NewParser(root)
 //@   requires root != nil
 //@   ensures result != nil && fresh(result)
+//@   ensures [C01] #invariant ieOK(result)
+//@   ensures [C14] #nothing-determined-yet ieDet(result)
 //@   ensures [C14] #all-meta-elements-of-the-document result.root == root && len(result.allMeta) == ebtLen(root, "meta") &&
 //@              forall(i, 0 <= i && i < len(result.allMeta), result.allMeta[i] == ebtAt(root, "meta", i))
+
+//@ func (*Parser).Title()
+//@   requires ieOK(p) && ieDet(p)
+//@   ensures [C01] #invariant ieOK(p)
+//@   ensures [C14] #determined-values-kept ieDet(p)
+//@   ensures [C14] #title-from-meta-title result == ieTitleSpec(p)
+
+//@ func (*Parser).Images()
+//@   requires ieOK(p) && ieDet(p)
+//@   ensures [C01] #invariant ieOK(p)
+//@   ensures [C14] #determined-values-kept ieDet(p)
+
+//@ func (*Parser).Publisher()
+//@   requires ieOK(p) && ieDet(p)
+//@   ensures [C01] #invariant ieOK(p)
+//@   ensures [C14] #determined-values-kept ieDet(p)
+
+//@ func (*Parser).Copyright()
+//@   requires ieOK(p) && ieDet(p)
+//@   ensures [C01] #invariant ieOK(p)
+//@   ensures [C14] #determined-values-kept ieDet(p)
+//@   ensures [C14] #copyright-from-meta-copyright result == ieCopyrightSpec(p)
+
+//@ func (*Parser).Author()
+//@   requires ieOK(p) && ieDet(p)
+//@   ensures [C01] #invariant ieOK(p)
+//@   ensures [C14] #determined-values-kept ieDet(p)
+//@   ensures [C14] #author-from-byline-name result == ieAuthorSpec(p)
+
+//@ func (*Parser).Article()
+//@   requires ieOK(p) && ieDet(p)
+//@   ensures [C01] #invariant ieOK(p)
+//@   ensures [C14] #determined-values-kept ieDet(p)
+//@   ensures [C14] #article-date-and-author result != nil && result.PublishedTime == ieDateSpec(p) && result.ModifiedTime == "" && result.ExpirationTime == "" && result.Section == "" &&
+//@              len(result.Authors) == ite(ieAuthorSpec(p) != "", 1, 0) && implies(ieAuthorSpec(p) != "", result.Authors[0] == ieAuthorSpec(p))
+
+//@ func (*Parser).OptOut()
+//@   requires ieOK(p) && ieDet(p)
+//@   ensures [C01] #invariant ieOK(p)
+//@   ensures [C14] #determined-values-kept ieDet(p)
+//@   ensures [C14] #opt-out-from-IE_RM_OFF result == ieOptOutSpec(p)
+
+//@ func (*Parser).findTitle()
+//@   requires ieOK(p) && ieDet(p) && !inmap(p.determinedProps, "title")
+//@   ensures [C01] #invariant ieOK(p)
+//@   ensures [C14] #determined-values-kept ieDet(p) && inmap(p.determinedProps, "title")
+//@   loop 0 invariant ieMeta(p.root, "title", 0) == ieMeta(p.root, "title", ITER) && p.title == ""
+
+//@ func (*Parser).findImages()
+//@   requires ieOK(p) && ieDet(p)
+//@   ensures [C01] #invariant ieOK(p)
+//@   ensures [C14] #determined-values-kept ieDet(p)
+//@   loop 0 invariant ieOK(p) && ieDet(p) && forall(i, 0 <= i && i < len(allImages), allImages[i] != nil)
+
+//@ func (*Parser).findPublisher()
+//@   requires ieOK(p) && ieDet(p)
+//@   ensures [C01] #invariant ieOK(p)
+//@   ensures [C14] #determined-values-kept ieDet(p)
+
+//@ func (*Parser).findCopyright()
+//@   requires ieOK(p) && ieDet(p) && !inmap(p.determinedProps, "copyright")
+//@   ensures [C01] #invariant ieOK(p)
+//@   ensures [C14] #determined-values-kept ieDet(p) && inmap(p.determinedProps, "copyright")
+//@   loop 0 invariant ieMeta(p.root, "copyright", 0) == ieMeta(p.root, "copyright", ITER) && p.copyright == ""
+
+//@ func (*Parser).findAuthor()
+//@   requires ieOK(p) && ieDet(p) && !inmap(p.determinedProps, "author")
+//@   ensures [C01] #invariant ieOK(p)
+//@   ensures [C14] #determined-values-kept ieDet(p) && inmap(p.determinedProps, "author")
+
+//@ func (*Parser).findDate()
+//@   requires ieOK(p) && ieDet(p) && !inmap(p.determinedProps, "date")
+//@   ensures [C01] #invariant ieOK(p)
+//@   ensures [C14] #determined-values-kept ieDet(p) && inmap(p.determinedProps, "date")
+//@   loop 0 invariant ieMeta(p.root, "displaydate", 0) == ieMeta(p.root, "displaydate", ITER) && p.date == ""
+
+//@ func (*Parser).findOptOut()
+//@   requires ieOK(p) && ieDet(p) && !inmap(p.determinedProps, "optout")
+//@   ensures [C01] #invariant ieOK(p)
+//@   ensures [C14] #determined-values-kept ieDet(p) && inmap(p.determinedProps, "optout")
+//@   loop 0 invariant ieMetaUp(p.root, "IE_RM_OFF", 0) == ieMetaUp(p.root, "IE_RM_OFF", ITER) && !p.optOut
+
+//@ func (*Parser).isImageRelevantBySize(img)
+//@   requires img != nil
+//@   assigns nothing
+
+//@ func (*Parser).getImageCaption(img)
+//@   requires img != nil
+//@   assigns nothing
+//@   fresh_assigns elems(ref)
